@@ -135,3 +135,224 @@ pub fn neighbourhoods() -> Vec<String> {
     out.dedup();
     out
 }
+
+fn rep(s: &str, n: usize) -> String {
+    s.repeat(n)
+}
+
+/// pumped instances of every recursive construct at lengths 2^j and at the 256-character limit
+pub fn pumping(ev: Ev) -> Vec<String> {
+    let mut out: Vec<String> = Vec::new();
+    let lens = [1usize, 2, 4, 8, 16, 32, 64, 100, 127, 128];
+    let fit = |s: String, out: &mut Vec<String>| {
+        if s.chars().count() <= 256 {
+            out.push(s);
+        }
+    };
+    for &n in &lens {
+        fit(format!("{}1{}", rep("(", n), rep(")", n)), &mut out);
+        fit(format!("{}1{}", rep("(", n), rep(")", n.saturating_sub(1))), &mut out);
+        fit(format!("{}1", rep("-+", n)), &mut out);
+        fit(format!("{}1", rep("-", 2 * n - 1)), &mut out);
+        fit(format!("1{}", rep("+1", n)), &mut out);
+        fit(format!("1{}", rep("*2", n)), &mut out);
+        fit(format!("2{}", rep("^1", n)), &mut out);
+        fit(format!("2{}", rep("^2", n)), &mut out);
+        fit(format!("1{}", rep("/3", n)), &mut out);
+        fit(format!("{}2{}", rep("abs(", n / 2 + 1), rep(")", n / 2 + 1)), &mut out);
+        fit(format!("{}2{}", rep("2(", n), rep(")", n)), &mut out);
+        fit(format!("2{}", rep("(2)", n / 2 + 1)), &mut out);
+        fit(rep("9", n * 2), &mut out);
+        fit(rep("0", n * 2), &mut out);
+        fit(format!("{}1", rep("0", n * 2 - 1)), &mut out);
+        fit(format!("2{}", rep("²", n)), &mut out);
+        fit(format!("2{}", rep("⁹", n)), &mut out);
+        fit(format!("2{}", rep("⁰", n)), &mut out);
+        fit(format!("pow({}", rep("pow(2,", n / 2)), &mut out);
+        if ev.has_factorial() {
+            fit(format!("1{}", rep("!", n * 2)), &mut out);
+            fit(format!("3{}", rep("!", n)), &mut out);
+            fit(format!("{}!", rep("9", n)), &mut out);
+        }
+        if ev.has_percent() {
+            fit(format!("7{}", rep("%3", n)), &mut out);
+        }
+        if ev != Ev::Cpx {
+            fit(format!("min(1{})", rep(",1", n)), &mut out);
+            fit(format!("med(3{})", rep(",1,2", n / 2 + 1)), &mut out);
+            fit(format!("avg(1{})", rep(",2", n)), &mut out);
+            fit(format!("max({}1{})", rep("max(", n / 2), rep(")", n / 2)), &mut out);
+        }
+        if ev.has_point() {
+            fit(format!("{}.{}", rep("9", n), rep("9", n)), &mut out);
+            fit(format!("0.{}1", rep("0", n * 2 - 1)), &mut out);
+            fit(rep(".", n), &mut out);
+            fit(format!("1{}", rep(".1", n)), &mut out);
+            fit(format!("{}.", rep("1", n)), &mut out);
+        }
+        if ev.has_floor_brackets() {
+            fit(format!("{}1.5{}", rep("⌊⌈(", n / 2 + 1), rep(")⌉⌋", n / 2 + 1)), &mut out);
+        }
+        if ev.has_deg_rad() {
+            fit(format!("1{}", rep("°", n * 2)), &mut out);
+            fit(format!("1{}", rep("rad", n)), &mut out);
+        }
+        if ev.has_bitops() {
+            fit(format!("1{}", rep("<<1", n)), &mut out);
+            fit(format!("1{}", rep("|2&3", n / 2 + 1)), &mut out);
+            fit(format!("gcd(12{})", rep(",18", n)), &mut out);
+            fit(format!("lcm(2{})", rep(",3", n)), &mut out);
+        }
+        if ev == Ev::Cpx {
+            fit(rep("i", n * 2), &mut out);
+            fit(format!("i{}", rep("*i", n)), &mut out);
+            fit(format!("{}i", rep("9", n)), &mut out);
+        }
+        if matches!(ev, Ev::F64 | Ev::Num | Ev::Dec) {
+            fit(format!("{}1{}", rep("w(", n / 2 + 1), rep(")", n / 2 + 1)), &mut out);
+            fit(format!("ilog({},2)", rep("9", n)), &mut out);
+            fit(format!("ilog(5,{})", rep("1", n)), &mut out);
+        }
+        for ws in WHITE_SPACE {
+            if n <= 64 {
+                fit(format!("1{}+{}2", rep(&ws.to_string(), n), rep(&ws.to_string(), n)), &mut out);
+            }
+        }
+        fit(rep("@", n), &mut out);
+        fit(format!("@{}", rep("+@", n)), &mut out);
+        fit(format!("@{}", rep("*@", n)), &mut out);
+        fit(format!("@{}", rep("^@", n / 2 + 1)), &mut out);
+    }
+    // every function that takes two or more arguments, nested in a LATER argument (and unterminated)
+    {
+        let mut seen: Vec<&str> = Vec::new();
+        for (name, f) in func_names(ev) {
+            if seen.contains(name) {
+                continue;
+            }
+            seen.push(name);
+            if matches!(f.arity(), Arity::Fixed(1)) {
+                continue;
+            }
+            for &n in &[2usize, 4, 8, 11, 12, 14, 16, 20, 24, 32, 40] {
+                fit(format!("{}1{}", rep(&format!("{}(1,", name), n), rep(")", n)), &mut out);
+                fit(rep(&format!("{}(1,", name), n), &mut out);
+                fit(format!("{}1{}", rep(&format!("{}(2,1+", name), n), rep(")", n)), &mut out);
+            }
+        }
+        for &n in &[2usize, 4, 8, 12, 16, 24, 32, 48, 64] {
+            fit(format!("{}1{}", rep("(1+", n), rep(")", n)), &mut out);
+            fit(format!("{}1{}", rep("2*(1+", n), rep(")", n)), &mut out);
+            fit(format!("{}1{}", rep("-(", n), rep(")", n)), &mut out);
+        }
+    }
+    // every recursive position: each wrapper nested n times around `1`, alone and alternated pairwise
+    {
+        let wrappers: Vec<(&str, &str)> = vec![
+            ("(", ")"),
+            ("⌊", "⌋"),
+            ("⌈", "⌉"),
+            ("abs(", ")"),
+            ("pow(", ",2)"),
+            ("pow(2,", ")"),
+            ("min(1,", ")"),
+            ("min(", ",1)"),
+            ("avg(1,2,", ")"),
+            ("-", ""),
+            ("", "!"),
+            ("2*", ""),
+            ("", "^2"),
+            ("2(", ")"),
+            ("(", ")(2)"),
+            ("1+", ""),
+            ("", "²"),
+        ];
+        let nest = |ws: &[(&str, &str)], n: usize| -> String {
+            let mut pre = String::new();
+            let mut post = String::new();
+            for i in 0..n {
+                let (a, b) = ws[i % ws.len()];
+                pre.push_str(a);
+                post.insert_str(0, b);
+            }
+            format!("{}1{}", pre, post)
+        };
+        for (i, w) in wrappers.iter().enumerate() {
+            for &n in &[3usize, 6, 10, 12, 16, 24, 32, 48, 64, 100] {
+                fit(nest(&[*w], n), &mut out);
+            }
+            for (j, v) in wrappers.iter().enumerate() {
+                if i != j {
+                    for &n in &[4usize, 8, 12, 20, 32, 50] {
+                        fit(nest(&[*w, *v], n), &mut out);
+                    }
+                }
+            }
+        }
+    }
+    // error sites followed by long tails of multi-byte characters at every byte alignment
+    // (code that formats or slices "the rest of the input" must respect character boundaries)
+    for prefix in ["1)", "2,", "1 2", "(1", "1+", "pow(1", "x", "1)(", "#", "2pi", "@(", "1.2.3"] {
+        for c in ['π', '°', '²', '⁴', '⌊', '⌉', 'é', '€', '\u{1F600}', '\u{3000}'] {
+            for shift in 0..4usize {
+                for &n in &[1usize, 2, 3, 4, 5, 6, 7, 8, 9, 10, 11, 12, 16, 17, 20, 32, 33, 64] {
+                    fit(format!("{}{}{}", prefix, rep("a", shift), rep(&c.to_string(), n)), &mut out);
+                    fit(format!("{}{}{}", prefix, rep("+", shift), rep(&c.to_string(), n)), &mut out);
+                }
+            }
+        }
+    }
+    // exactly 256 and 257 characters of the simplest shapes
+    out.push(format!("1{}", rep("+1", 127)) + "+");
+    out.push(rep("1", 256));
+    out.push(rep("(", 256));
+    out.push(rep("-", 256));
+    out.sort();
+    out.dedup();
+    out
+}
+
+/// long aggregate lists (21..64 operands, unsorted structured orders) with the placeholder at the
+/// front, in the middle and at the end — with the full placeholder pool this drives NaN, infinities and
+/// extreme values through the sort / fold of every aggregate at sizes where std switches algorithms
+pub fn agg_long(ev: Ev) -> Vec<String> {
+    let mut out = Vec::new();
+    if ev == Ev::Cpx {
+        return out;
+    }
+    let mut names: Vec<&str> = vec!["min", "max", "avg", "med", "median"];
+    if ev == Ev::I64 {
+        names.push("gcd");
+        names.push("lcm");
+    }
+    for &n in &[9usize, 16, 17, 20, 21, 22, 24, 32, 33, 40, 48, 64] {
+        let base: Vec<i64> = (0..n as i64).map(|i| (i * 37) % 101 - 50).collect();
+        let mut orders: Vec<Vec<i64>> = vec![base.clone(), base.iter().rev().cloned().collect()];
+        let mut rot = base.clone();
+        rot.rotate_left(n / 3);
+        orders.push(rot);
+        let mut sorted = base.clone();
+        sorted.sort();
+        let mut organ: Vec<i64> = sorted.iter().step_by(2).cloned().collect();
+        organ.extend(sorted.iter().skip(1).step_by(2).rev().cloned());
+        orders.push(organ);
+        for o in &orders {
+            for at_pos in [usize::MAX, 0, n / 2, n - 1] {
+                let args = o
+                    .iter()
+                    .enumerate()
+                    .map(|(i, v)| if i == at_pos { "@".to_string() } else if *v < 0 { format!("(-{})", -v) } else { v.to_string() })
+                    .collect::<Vec<_>>()
+                    .join(",");
+                for name in &names {
+                    let s = format!("{}({})", name, args);
+                    if s.chars().count() <= 256 {
+                        out.push(s);
+                    }
+                }
+            }
+        }
+    }
+    out
+}
+
